@@ -122,6 +122,9 @@ def mutants(doc):
         t[0].tail = 'stray text'
         out.append(('text-between-children', d))
         d, t = clone()
+        t[-1].tail = 'stray text'
+        out.append(('text-after-last-child', d))
+        d, t = clone()
         t.append(ET.Element('no-such-element'))
         out.append(('unknown-element', d))
     if len(target) >= 2:
